@@ -30,6 +30,11 @@ THEOREMS = [
     "MCHap.C15.breaks_partition",
     "MCHap.C15.fixed_iff",
     "MCHap.C15.reinsert_spec",
+    "MCHap.C15.restrict_reinsert",
+    "MCHap.C15.reinsertHap_injective",
+    "MCHap.C15.reinsert_count",
+    "MCHap.C15.restrict_length",
+    "MCHap.C15.reinsert_restrict_iff",
 ]
 RULE = ("cases: (ploidy, n_base) grids incl. n_base in {127,128,129,200,256,300} for the sweep (recorder and jitted forcing read set); "
         "(breaks, n) with forced draw sequences and jitted random draws for random_breaks; random read sets x thresholds for the "
@@ -581,6 +586,8 @@ def run(tier, replay=None):
             p_, nhet = g.shape
             captured["n_het"] = nhet
             captured["n_alleles"] = np.array(kw["n_alleles"]).tolist()
+            captured["reads"] = np.array(kw["reads"], dtype=float, copy=True)
+            captured["read_counts"] = None if kw.get("read_counts") is None else np.array(kw["read_counts"]).copy()
             trace = np.zeros((1, steps, p_, nhet), dtype=np.int8)
             for s in range(steps):
                 for h in range(p_):
@@ -632,6 +639,36 @@ def run(tier, replay=None):
             chk.violation("the allele numbers handed to the sampler are not those of the SNVs that were not fixed",
                           {**case, "passed": captured.get("n_alleles"), "expected": [n_alleles[j] for j in het_cols]}, "C15/fix/site-alleles")
             continue
+        # the reads handed to the sampler are the columns of the SNVs that were not fixed (model: `restrict`), in site order,
+        # with the read counts untouched
+        if het_cols:
+            pat_ = ["x" if f is None else str(f) for f in fixed]
+            mline = " ".join(["sweep.restrict", str(nb)] + pat_ + ["1"] + [str(j) for j in range(nb)])
+            mcols = [int(x) for x in drv.ask1(mline).split()]
+            chk.count("fit:restrict")
+            if mcols != het_cols:
+                chk.disagreement("sampled columns: model restrict != sites whose probabilities stay under the threshold",
+                                 {**case, "model": mcols, "expected": het_cols})
+                continue
+            rd = captured.get("reads")
+            if rd is None or rd.shape != (reads_seen.shape[0], len(mcols), reads_seen.shape[2]) \
+                    or not np.array_equal(rd, np.asarray(reads_seen, dtype=float)[:, mcols], equal_nan=True):
+                wrong = None
+                if rd is not None and rd.ndim == 3 and rd.shape[0] == reads_seen.shape[0] and rd.shape[2] == reads_seen.shape[2]:
+                    wrong = next((k for k in range(min(rd.shape[1], len(mcols)))
+                                  if not np.array_equal(rd[:, k], np.asarray(reads_seen, dtype=float)[:, mcols[k]], equal_nan=True)), None)
+                chk.violation("the reads handed to the sampler are not the columns of the SNVs that were not fixed (in site order)",
+                              {**case, "sampled_sites": mcols if nb <= 40 else f"{len(mcols)} sites",
+                               "shape_passed": None if rd is None else list(rd.shape), "first_wrong_sampled_column": wrong}, "C15/fix/restrict-reads")
+                continue
+            # (a sample without reads: fit mocks one all-gap read but passes the caller's empty count array on - the count of
+            #  an all-gap read multiplies a log-likelihood of 0, so nothing is demanded of it here)
+            rc = captured.get("read_counts")
+            exp_rc = None if counts is None else np.asarray(counts)
+            if n_rd > 0 and (rc is None) != (exp_rc is None) or n_rd > 0 and (rc is not None and not np.array_equal(rc, exp_rc)):
+                chk.violation("the read counts handed to the sampler differ from the ones given to fit",
+                              {**case, "passed": None if rc is None else rc.tolist()}, "C15/fix/restrict-counts")
+                continue
         if tr.genotypes.shape[0] != n_chains:
             chk.violation("the trace does not hold one chain per requested chain", {**case, "chains_in_trace": int(tr.genotypes.shape[0])}, "C15/fix/chains")
             continue
